@@ -68,6 +68,36 @@ def build_harness(bins=("drive",)):
         return rc == 0, out
 
 
+def shapes_not_compiling(log):
+    """From a failed harness build: the derived struct shapes of harness/src/shapes_gen.rs whose `#[derive(..)]`
+    (or `declare_set!`) is where the compiler reports an error. [] when the failure is elsewhere."""
+    src = os.path.join(HARNESS, "src", "shapes_gen.rs")
+    try:
+        lines = open(src).read().split("\n")
+    except OSError:
+        return []
+    out, seen = [], set()
+    for m in re.finditer(r"(error(?:\[E\d+\])?: [^\n]*)\n\s*--> src/shapes_gen\.rs:(\d+):\d+", log):
+        ln = int(m.group(2))
+        if not (1 <= ln <= len(lines)):
+            continue
+        here = lines[ln - 1]
+        if "derive(" not in here and "declare_set!" not in here:
+            continue
+        name = None
+        for l in lines[ln - 1: ln + 4]:
+            mm = re.search(r"pub struct (\w+)|declare_set!\(\w+, (\w+)", l)
+            if mm:
+                name = mm.group(1) or mm.group(2)
+                break
+        if name and name not in seen:
+            seen.add(name)
+            body = [l for l in lines[ln - 1: ln + 12]]
+            end = next((i for i, l in enumerate(body) if l.strip().endswith("}") or l.strip().endswith("});")), len(body) - 1)
+            out.append({"struct": name, "error": m.group(1), "declaration": "\n".join(body[:end + 1])})
+    return out
+
+
 def build_lean(targets):
     with Lock("lean.lock"):
         rc, out = run(["lake", "build"] + list(targets), cwd=LEAN, timeout=3600)
